@@ -14,6 +14,9 @@ fn main() {
     std::env::set_var("RUST_LIB_BACKTRACE", "0");
     engine::panic::install_hook();
     let args: Vec<String> = std::env::args().collect();
+    if args.len() >= 6 && args[1] == "c19-child" {
+        checks::c19::child(&args[2..]);
+    }
     if args.len() < 3 {
         usage();
     }
@@ -50,6 +53,8 @@ fn run(prop: &str, tier: Tier) -> i32 {
         "C15" => checks::c15::run(tier),
         "C16" => checks::c16::run(tier),
         "C17" => checks::c17::run(tier),
+        "C18" => checks::c18::run(tier),
+        "C19" => checks::c19::run(tier),
         _ => {
             eprintln!("unknown property {prop}");
             2
@@ -91,6 +96,8 @@ fn replay(path: &str) -> i32 {
         "C15" => checks::c15::replay(&case),
         "C16" => checks::c16::replay(&case),
         "C17" => checks::c17::replay(&case),
+        "C18" => checks::c18::replay(&case),
+        "C19" => checks::c19::replay(&case),
         _ => {
             eprintln!("unknown property in replay file");
             2
